@@ -177,6 +177,10 @@ pub fn feed_all(s: &mut Session, obj: &str, pieces: &[Vec<u8>], eof: bool) -> De
                 d.end = true
             } else if let Some(rest) = tok.strip_prefix("d:") {
                 d.data.extend(unhex(rest).unwrap_or_default())
+            } else if let Some(rest) = tok.strip_prefix("u:") {
+                // a datagram item (address, payload): its payload counts as released data
+                let (_, h) = rest.rsplit_once(':').unwrap_or((rest, "-"));
+                d.data.extend(unhex(h).unwrap_or_default())
             } else if let Some(rest) = tok.strip_prefix("c:") {
                 let (a, h) = rest.rsplit_once(':').unwrap_or((rest, "-"));
                 d.connect = Some(a.replace('/', ":"));
